@@ -136,37 +136,12 @@ Section C09.
     (forall y, ~ In y (row_names s) -> assoc y (vars s') = assoc y (vars s)).
   Proof. exact (values_setter_array_content pycast arrcast infer r m dt cells s s'). Qed.
 
-  (* a raising single-variable operation leaves the whole state unchanged unless its class is one raised by an
-     element cast (then only leading cells of the addressed series are written: C09_partial_write_refuted) *)
+  (* A RAISING SINGLE-VARIABLE OPERATION LEAVES THE WHOLE STATE UNCHANGED, whatever the reason it cannot fit (wrong length or shape,
+     nesting, step 0, a value that cannot be cast - also part-way through an in-place copy: fix 5dde979 -, unknown / duplicate /
+     reserved name, strict=True).  single o = every operation except the two bulk ones (replace_values, the values setter) *)
   Theorem C09_failed_single_assignment_no_change o s s' e :
-    single o -> step o s = (s', Raise e) ->
-    s' = s \/ (exists d c, pycast d c = Raise e \/ exists src, arrcast src d c = Raise e).
+    single o -> step o s = (s', Raise e) -> s' = s.
   Proof. exact (failed_single_assignment_no_change pycast arrcast infer astype_dt itemseq_exn o s s' e). Qed.
-
-  (* the PRECISE version: a raising single-variable operation changes something only when it is an in-place copy (label-slice
-     assignment, or whole-series assignment of a non-sequence = an ndarray) whose element cast failed part-way, and then only the
-     cells of the addressed series differ (same dtype, same shape, all other series / index / attributes untouched).  Wrong length
-     into a slice, nesting too deep, step 0, ragged nesting, a sequence into one cell, a whole-series LIST with a bad cell,
-     unknown / duplicate / reserved names: s' = s. *)
-  Theorem C09_failed_single_assignment_precise o s s' e :
-    single o -> step o s = (s', Raise e) ->
-    s' = s \/
-    exists name,
-      (exists v v', assoc name (vars s) = Some v /\ s' = set_vars s (assoc_set name v' (vars s)) /\
-                    vdtype v' = vdtype v /\ vshape v' = vshape v) /\
-      (exists d c, pycast d c = Raise e \/ exists src, arrcast src d c = Raise e) /\
-      ((exists a b st v, o = SetItem (KSlice name a b st) v) \/
-       (exists v h, o = SetAttr name v h /\ is_sequence v = false) \/
-       (exists v, o = SetItem (KName name) v /\ is_sequence v = false)).
-  Proof. exact (failed_single_assignment_precise pycast arrcast infer astype_dt itemseq_exn o s s' e). Qed.
-
-  Theorem C09_sequence_assignment_atomic name value s s' e :
-    is_sequence value = true -> setattr_var pycast arrcast name value s = (s', Raise e) -> s' = s.
-  Proof. exact (sequence_assignment_atomic pycast arrcast name value s s' e). Qed.
-
-  Theorem C09_label_assignment_atomic name l value s s' e :
-    setitem pycast arrcast infer itemseq_exn (KLabel name l) value s = (s', Raise e) -> s' = s.
-  Proof. exact (label_assignment_atomic pycast arrcast infer itemseq_exn name l value s s' e). Qed.
 
   (* fix d82b358: a name whose storage key '_' + name is taken ('attributes', 'strict', ...) is refused, nothing changes *)
   Theorem C09_reserved_name_rejected name value dt s :
@@ -216,7 +191,7 @@ Section C09.
 
   (* strict *)
   Theorem C09_strict_blocks_new_attributes name value hint s :
-    strict s = true -> name <> "strict" ->
+    strict s = true -> is_property (kind s) name = false ->
     mem name (index s) = false -> reg_mem name (registry s) = false ->
     setattr pycast arrcast infer name value hint s =
       (s, Raise (match alternatives hint (row_names s) with _ :: _ :: _ => NotImplementedError | _ => AttributeError end)).
@@ -227,7 +202,7 @@ Section C09.
      attribute entry afterwards was there before or belongs to a name registered before *)
   Theorem C09_strict_creates_nothing o s :
     strict s = true -> in_scope (kind s) o ->
-    (forall n v, o <> AddAttribute n v) -> (forall v h, o <> SetAttr "strict" v h) ->
+    (forall n v, o <> AddAttribute n v) -> (forall n v h, o = SetAttr n v h -> is_property (kind s) n = false) ->
     registry (fst (step o s)) = registry s /\
     (forall x, assoc x (adict (fst (step o s))) <> None -> assoc x (adict s) <> None \/ reg_mem x (registry s) = true).
   Proof. exact (strict_creates_nothing pycast arrcast infer astype_dt itemseq_exn o s). Qed.
@@ -238,11 +213,9 @@ Section C09.
     setitem pycast arrcast infer itemseq_exn (KName name) value s = setattr_var pycast arrcast name value s.
   Proof. exact (strict_updates_keep_working pycast arrcast infer itemseq_exn name value hint s). Qed.
 
-  (* the values setter is reached whenever the guard does not fire (strict off, or 'values' already registered);
-     the remaining case is the kept finding C09_strict_values_setter_blocked_refuted *)
+  (* the values setter is reached whatever the strict flag (fix 49a73ab: properties of the class pass the new-attribute guard) *)
   Theorem C09_values_setter_reached value hint s :
     mem "values" (index s) = false ->
-    strict s = false \/ reg_mem "values" (registry s) = true ->
     snd (setattr pycast arrcast infer "values" value hint s) = snd (values_setter pycast arrcast infer value s) /\
     vars (fst (setattr pycast arrcast infer "values" value hint s)) = vars (fst (values_setter pycast arrcast infer value s)) /\
     index (fst (setattr pycast arrcast infer "values" value hint s)) = index (fst (values_setter pycast arrcast infer value s)).
@@ -259,12 +232,6 @@ Section C09.
      snd (add_variable pycast arrcast infer astype_dt name value dt s)).
   Proof. exact (add_variable_ignores_strict pycast arrcast infer astype_dt name value dt s b). Qed.
 End C09.
-
-(* the NumPy tables of this image: rejections other than NumPy's three cast classes are atomic *)
-Theorem C09_failed_single_assignment_np o s s' e :
-  single o -> np_step o s = (s', Raise e) ->
-  e <> ValueError -> e <> TypeError -> e <> OverflowError -> s' = s.
-Proof. exact (failed_single_assignment_np o s s' e). Qed.
 
 (* the model's totalisation default (OtherError = "outside the model") is reached by NO operation from a state satisfying the
    invariant: no statement above holds by virtue of a default branch *)
@@ -318,20 +285,6 @@ Theorem C09_underscore_assignment_needs_scope_refuted :
   exists s o, Inv s /\ ~ in_scope (kind s) o /\ snd (np_step o s) = Raise OtherError.
 Proof. exact underscore_assignment_needs_scope_refuted. Qed.
 
-(* kept findings (known_findings.d/C09.json), mirrored by the model *)
-Theorem C09_partial_write_refuted :
-  exists s o, Inv s /\ single o /\
-    snd (np_step o s) = Raise ValueError /\
-    assoc "X" (vars s) = Some (mkVar DInt [3] [PInt 1; PInt 2; PInt 3]%Z) /\
-    assoc "X" (vars (fst (np_step o s))) = Some (mkVar DInt [3] [PInt 7; PInt 8; PInt 3]%Z).
-Proof. exact partial_write_refuted. Qed.
-
-Theorem C09_strict_values_setter_blocked_refuted :
-  exists s v, Inv s /\ strict s = true /\ mem "values" (index s) = false /\
-    np_step (SetAttr "values" v None) s = (s, Raise AttributeError) /\
-    snd (np_step (SetAttr "values" v None) (set_strict s false)) = Ret tt.
-Proof. exact strict_values_setter_blocked_refuted. Qed.
-
 Print Assumptions C09_inv_unfolded.
 Print Assumptions C09_inv_init_container.
 Print Assumptions C09_inv_init_model.
@@ -353,9 +306,6 @@ Print Assumptions C09_row_names_nodup.
 Print Assumptions C09_values_stack.
 Print Assumptions C09_values_setter_array_content.
 Print Assumptions C09_failed_single_assignment_no_change.
-Print Assumptions C09_failed_single_assignment_precise.
-Print Assumptions C09_sequence_assignment_atomic.
-Print Assumptions C09_label_assignment_atomic.
 Print Assumptions C09_reserved_name_rejected.
 Print Assumptions C09_attributes_and_strict_are_reserved.
 Print Assumptions C09_span_assignment_needs_scope_refuted.
@@ -375,18 +325,17 @@ Print Assumptions C09_strict_creates_nothing.
 Print Assumptions C09_strict_updates_keep_working.
 Print Assumptions C09_whole_series_ignores_strict.
 Print Assumptions C09_add_variable_ignores_strict.
-Print Assumptions C09_failed_single_assignment_np.
 Print Assumptions C09_no_other_error.
 Print Assumptions C09_hooks_change_nothing.
 Print Assumptions C09_completions_are_the_variables.
 Print Assumptions C09_contains_spec.
 Print Assumptions C09_dir_lists_variables_and_attributes.
 Print Assumptions C09_nbytes_spec.
-Print Assumptions C09_partial_write_refuted.
-Print Assumptions C09_strict_values_setter_blocked_refuted.
 Print Assumptions C09_values_setter_reached.
 Print Assumptions w0_inv.
 Print Assumptions w0_invD.
 Print Assumptions values_setter_content_instance.
 Print Assumptions strict_hypotheses_satisfiable.
+Print Assumptions in_place_assignments_are_atomic.
+Print Assumptions values_setter_works_under_strict.
 Print Assumptions m0_inv.
